@@ -438,7 +438,7 @@ struct QEngine : public Engine
       {
          uint64_t a, s;
          if ((!toU64(t[1], a))||(a >= 3)||(!toU64(t[2], s))||(s == 0)||(s > 64)) return "bad-op";
-         if (bank((int)a)->sq() != (uint32)s) return "bad-op";   // the inline capacity is what the compiled code says, not a free parameter
+         if (bank((int)a)->sq() != (uint32)s) {b0.reset(); b1.reset(); b2.reset(); cur = NULL; return "n/a";}   // the inline capacity is what the compiled code says, not a free parameter: a recorded case made for another value does not apply to this build
          b0.reset(); b1.reset(); b2.reset();
          cur = bank((int)a); ty = (int)a;
          return "ok";
